@@ -29,3 +29,31 @@ Fixpoint ren_path (p c : node) (new : ident) (n : node) (l : list node) (pth : p
 (* all edges p -> c carry the same label *)
 Definition uniform (g : graph) (p c : node) (old : ident) : Prop :=
   forall e, In e g -> e_src e = p -> e_dst e = c -> e_lbl e = old.
+
+(* The class of the known finding F-C15a, on the handler's inputs: some usage of the symbol is not "plain".
+   A usage is plain when its text is one identifier that is `super`, or that resolves (bubbling allowed) from the
+   usage's recorded scope to the symbol itself, the resolving scope being the scope of the definition or the usage's
+   own.  The argument `x as y` of a specific import is not plain: as an identifier it resolves to nothing. *)
+Definition usage_plain (fuel : nat) (g : graph) (slice : Span -> path) (nx : node) (loc : DefinitionLocation)
+           (dl : DefinitionLocation) : bool :=
+  match slice (dl_span dl) with
+  | [id] =>
+      is_super id ||
+      match query_traversal_steps fuel g (parent_scope dl) [id] with
+      | Some steps =>
+          match last_symbol steps with
+          | Some t => Nat.eqb t nx &&
+                      (Nat.eqb (resolving_scope (parent_scope dl) steps) (parent_scope loc) ||
+                       Nat.eqb (resolving_scope (parent_scope dl) steps) (parent_scope dl))
+          | None => false
+          end
+      | None => false
+      end
+  | _ => false
+  end.
+
+Definition Known_import_alias (fuel : nat) (g : graph) (slice : Span -> path) (nx : node) (d : Def) : bool :=
+  match location d with
+  | Some loc => negb (forallb (usage_plain fuel g slice nx loc) (usages d))
+  | None => false
+  end.
